@@ -1,14 +1,14 @@
 SPECIFICATION MCSpec
 CONSTANTS
-  NP = 3
-  Lens = {3, 4, 5, 6, 7}
+  NP = 4
+  Lens = {1, 2, 3, 4, 5, 6, 7, 8}
   PLen = 4
   PMin = 2
   SLen = 2
   TLen = 6
   Kinds = {"over", "under"}
-  Rfs = {1, 2}
-  Isos = {FALSE}
+  Rfs = {0, 1, 2, 3}
+  Isos = {FALSE, TRUE}
   Skips = {FALSE, TRUE}
   Bads = {{}, {1}, {2}}
 INVARIANTS MCTypeOK MCSound MCSoundSkip MCComplete MCCompleteSkip MCNeverSplit MCBadAlone MCOthersUnaffected MCFilterHonoured
